@@ -363,6 +363,49 @@ pub fn check_stitched(
         ));
         return v;
     }
+    // The same version seen through a selection (each of its directories as the subtree, up to
+    // four; its last plainly named directory left out by pattern): exactly the matching part of
+    // the listing above, in the same order.
+    let dirs: Vec<String> = got_l.iter().filter(|e| e.1 == "Dir" && e.0 != "/").map(|e| e.0.clone()).collect();
+    let under = |p: &str, s: &str| p == s || (p.starts_with(s) && p.as_bytes().get(s.len()) == Some(&b'/'));
+    for s in dirs.iter().take(4) {
+        let (lo, part) = run::do_list(dir, Sel::Band(band), s, &[], run::NOHOOK);
+        let got_p: Vec<_> = part.iter().map(|e| (e.apath.clone(), e.kind.clone(), e.target.clone(), e.addrs.clone())).collect();
+        let want_p: Vec<_> = got_l.iter().filter(|e| under(&e.0, s)).cloned().collect();
+        if lo.panicked.is_some() || !lo.is_ok() || got_p != want_p {
+            v.push(Violation::new(
+                format!("C03:stitched-listing-by-subtree-differs:{site}"),
+                format!(
+                    "{at}: listing b{band:04} under {s} gives {:?} ({}) but its part of the whole listing is {:?}",
+                    got_p.iter().map(|e| &e.0).collect::<Vec<_>>(),
+                    lo.describe(),
+                    want_p.iter().map(|e| &e.0).collect::<Vec<_>>()
+                ),
+            ));
+            return v;
+        }
+    }
+    if let Some(s) = dirs
+        .iter()
+        .rev()
+        .find(|d| d[1..].chars().all(|c| c.is_ascii_alphanumeric()))
+    {
+        let (lo, part) = run::do_list(dir, Sel::Band(band), "/", &[s.clone()], run::NOHOOK);
+        let got_p: Vec<_> = part.iter().map(|e| (e.apath.clone(), e.kind.clone(), e.target.clone(), e.addrs.clone())).collect();
+        let want_p: Vec<_> = got_l.iter().filter(|e| !under(&e.0, s)).cloned().collect();
+        if lo.panicked.is_some() || !lo.is_ok() || got_p != want_p {
+            v.push(Violation::new(
+                format!("C03:stitched-listing-with-exclusion-differs:{site}"),
+                format!(
+                    "{at}: listing b{band:04} leaving out {s} gives {:?} ({}) but the whole listing less that directory is {:?}",
+                    got_p.iter().map(|e| &e.0).collect::<Vec<_>>(),
+                    lo.describe(),
+                    want_p.iter().map(|e| &e.0).collect::<Vec<_>>()
+                ),
+            ));
+            return v;
+        }
+    }
     // Expected restore content: new content for paths from the interrupted band, the older
     // version's content for the rest.
     // Ancestors count only if they are listed as directories: an entry below a path that the
@@ -558,6 +601,7 @@ pub fn run(report: &Report, budget: &Budget) {
     let srcs = SrcCache::new();
     let mut scenarios = common::standard_scenarios(&srcs);
     scenarios.extend(common::big_scenarios(&srcs));
+    scenarios.extend(common::subdir_scenarios(&srcs));
     // plus every state of the history graph to depth 1 (thorough: 2) as "previous history"
     scenarios.extend(crate::c02::depth_states_as_scenarios(&srcs, if report.thorough() { 2 } else { 1 }, budget));
     let main_scratch = Scratch::new("c03");
